@@ -737,6 +737,8 @@ type SpecEnv struct {
 	freeVars map[string]*PtrInfo // captured variables of a closure under verification
 	entryParams map[string]Val // entry values of the parameters (what old(p) means; also p itself in pre/postconditions)
 	callSite bool // evaluating a callee's postcondition as an assumption
+	noRename bool
+	clause   string // text of the clause being evaluated (key of the recorded bindings)
 	newThread bool // evaluating a goroutine's precondition at its go statement: the new thread holds no lock
 	freshLo  Term // call site: objects allocated by the callee are above this
 	facts   []Term
@@ -769,6 +771,10 @@ func (env *SpecEnv) evalBool(e *SpecExpr) Term {
 }
 
 func (env *SpecEnv) eval(e *SpecExpr) Val {
+	if env.clause == "" && e.Text != "" {
+		env.clause = e.Text
+		defer func() { env.clause = "" }()
+	}
 	switch e.Op {
 	case "==>":
 		l := env.evalBool(e.L)
@@ -862,6 +868,18 @@ func (env *SpecEnv) lookupIdent(name string) (Val, bool) {
 	if obj := types.Universe.Lookup(name); obj != nil {
 		if c, ok := obj.(*types.Const); ok {
 			return constVal(env.st, c.Type(), c.Val()), true
+		}
+	}
+	// the contract may use a name the code has since renamed (see bindings.go)
+	if !env.noRename && env.fn != nil {
+		if alt := env.st.ctx.eng.renamedIdent(env.fn, name); alt != "" && alt != name {
+			env.noRename = true
+			v, ok := env.lookupIdent(alt)
+			env.noRename = false
+			if ok {
+				env.st.ctx.note("contract name %q in %s bound to the renamed variable %q (same definition: /verif/bindings.json)", name, funcKey(env.fn), alt)
+				return v, true
+			}
 		}
 	}
 	return Val{}, false
